@@ -1,4 +1,6 @@
 import Mieru.Gen.Consts
+import Mieru.Gen.FactsC19
+import Mieru.Proofs.Registry
 import Mieru.Proofs.Counter
 import Mieru.Proofs.CounterSearch
 import Mieru.Proofs.Quota
@@ -380,6 +382,164 @@ theorem quota_isolated_by_traffic (w : World) (u : String) (ops : List Acct.Op) 
   · simp [World.server, run_policies]
   · simp [World.server, hm]
 
+
+/-! ## Concurrent registration: every session obtains the published counter -/
+
+open Mieru.Registry in
+/-- "Sessions opened concurrently with accounting": for ANY number of sessions registering the same
+    not-yet-existing metric and ANY interleaving of their atomic steps, with a registration that
+    publishes only through `LoadOrStore` (no plain `Store`): every call that has returned holds the
+    published counter — so all callers hold the same one — and every byte count added went to it:
+    what the registry, the dump and `checkQuota` see is everything that was added. -/
+theorem register_every_caller_gets_published (prog : List Instr) (hp : Instr.storeOwn ∉ prog) (n : Nat) (sched : List Nat) :
+    (∀ (i : Nat) (t : Thread), (run prog (init n) sched).threads[i]? = some t →
+        ∀ r, t.ret = some r → (run prog (init n) sched).slot = some r) ∧
+    visibleAdds (run prog (init n) sched) = doneAdds (run prog (init n) sched) := by
+  have h := Mieru.Proofs.Registry.run_inv prog hp (init n) sched (Mieru.Proofs.Registry.inv_init n)
+  exact ⟨h.1, Mieru.Proofs.Registry.visible_eq_done _ h⟩
+
+open Mieru.Registry in
+/-- The code has that shape — REGENERATED: the only `sync.Map` method `RegisterMetric` calls on the
+    metric slot is one `LoadOrStore`, what it returns is that call's first result, and the group slot
+    is published the same way. (A `Load` fast path followed by `Store`, seeded/C19-5, changes the
+    regenerated lists and this stops building.) -/
+theorem register_metric_shape :
+    shapeOfCalls Mieru.Gen.FactsC19.registerMetricSlotCalls = some codeShape ∧
+    Instr.storeOwn ∉ codeShape ∧
+    Mieru.Gen.FactsC19.registerMetricReturns = [("metric.(Metric)", "metricGroup.metrics.LoadOrStore", "0")] ∧
+    Mieru.Gen.FactsC19.registerMetricGroupCalls = ["LoadOrStore"] := by decide
+
+open Mieru.Registry in
+/-- Why the shape matters: with check-then-store two sessions interleave so that both miss, both
+    store; the first caller keeps a counter the registry no longer holds and its bytes are counted
+    against nobody (2 added, 1 visible). -/
+theorem register_check_then_store_counterexample :
+    let st := run racyShape (init 2) [0, 1, 0, 1, 0, 1, 0, 1]
+    (st.threads.map (·.ret)) = [some 0, some 1] ∧ st.slot = some 1 ∧ doneAdds st = 2 ∧ visibleAdds st = 1 := by decide
+
+/-- Each session keeps the counters `input` registered for the user of ITS cipher block, upload with
+    upload and download with download, both time series — REGENERATED from `Session.input`. -/
+theorem session_metric_registration :
+    Mieru.Gen.FactsC19.sessionMetricRegistrations =
+      [("s.uploadBytes", "fmt.Sprintf(metrics.UserMetricGroupFormat, (*s.block.Load()).BlockContext().UserName)",
+        "metrics.UserMetricUploadBytes", "metrics.COUNTER_TIME_SERIES"),
+       ("s.downloadBytes", "fmt.Sprintf(metrics.UserMetricGroupFormat, (*s.block.Load()).BlockContext().UserName)",
+        "metrics.UserMetricDownloadBytes", "metrics.COUNTER_TIME_SERIES")] := by decide
+
+/-! ## Regenerated structure of Read / Write / inputData / checkQuota / rollUp / DeltaBetween -/
+
+/-- `Session.Read`: the only `return` with a non-zero count is the final `n, nil`, directly preceded
+    by `if !s.isClient && s.uploadBytes != nil { s.uploadBytes.Add(int64(n)) }`; `n` only ever grows by
+    what `copy` put into `b[n:]`, from `unreadBuf` or from a dequeued payload — the shape `readLoop`
+    and `readOn` model. (seeded/C19-1 — counting only what was copied out of dequeued segments —
+    changes `readAdds`.) -/
+theorem read_accounting_placement :
+    Mieru.Gen.FactsC19.readReturns =
+      [("0, nil", "no", "len(b) == 0"), ("0, io.EOF", "no", ""), ("0, io.ErrUnexpectedEOF", "no", ""),
+       ("0, stderror.ErrTimeout", "no", ""), ("n, nil", "yes", "")] ∧
+    Mieru.Gen.FactsC19.readAdds = [("!s.isClient && s.uploadBytes != nil", "s.uploadBytes", "int64(n)")] ∧
+    Mieru.Gen.FactsC19.readCopies = [("b[n:]", "s.unreadBuf"), ("b[n:]", "seg.payload")] ∧
+    Mieru.Gen.FactsC19.readNUpdates = ["n += copied", "n += copied"] := by decide
+
+/-- `Session.Write`: every `return` that can carry a non-zero count — the early one when a later chunk
+    fails (the round-3 `fix:`) and the final one — is directly preceded by the `Add(int64(n))` to
+    `s.downloadBytes`; the only other one is on the client-only open-request path; `n` grows by the
+    chunk size only. -/
+theorem write_accounting_placement :
+    Mieru.Gen.FactsC19.writeReturns =
+      [("0, io.ErrClosedPipe", "no", "s.closeRequested.Load()"),
+       ("0, fmt.Errorf(\"%v is not ready for Write()\", s)", "no", "s.isStateBefore(sessionAttached, false)"),
+       ("0, io.ErrClosedPipe", "no", "s.isStateAfter(sessionClosed, true)"),
+       ("0, fmt.Errorf(\"insert %v to send queue failed\", seg)", "no",
+        "s.isClient && s.isState(sessionAttached) && !s.openSessionRequestSent.Swap(true) && !s.sendQueue.Insert(seg)"),
+       ("len(seg.payload), nil", "no",
+        "s.isClient && s.isState(sessionAttached) && !s.openSessionRequestSent.Swap(true) && len(seg.payload) > 0"),
+       ("n, err", "yes", "sent == 0 || err != nil"), ("n, nil", "yes", "")] ∧
+    Mieru.Gen.FactsC19.writeAdds =
+      [("!s.isClient && s.downloadBytes != nil", "s.downloadBytes", "int64(n)"),
+       ("!s.isClient && s.downloadBytes != nil", "s.downloadBytes", "int64(n)")] ∧
+    Mieru.Gen.FactsC19.writeNUpdates = ["n += sizeToSend"] ∧
+    (maxPDU : Int) = Mieru.Gen.maxPDU := by decide
+
+/-- `Session.inputData`: the quota check is the FIRST statement, before any insertion into
+    `recvQueue` / `recvBuf`; its refusal branch sets the status, closes and RETURNS — the repaired
+    order that `inputOn` models. -/
+theorem quota_check_placement :
+    Mieru.Gen.FactsC19.inputDataFirstIf =
+      "!s.isClient && seg.metadata.Protocol() == openSessionRequest && s.isState(sessionAttached)" ∧
+    Mieru.Gen.FactsC19.inputDataRefusalGuard =
+      "!s.isClient && seg.metadata.Protocol() == openSessionRequest && s.isState(sessionAttached) && userName := s.UserName(); userName != \"\"" ∧
+    Mieru.Gen.FactsC19.inputDataCalls =
+      ["s.checkQuota", "s.Close", "s.recvQueue.Insert", "s.recvBuf.Insert", "s.moveRecvBufToRecvQueue",
+       "s.sendQueue.Insert", "s.forwardStateTo"] ∧
+    Mieru.Gen.FactsC19.inputDataRefusal =
+      ["s.oLock.Lock()", "s.status = statusQuotaExhausted", "s.oLock.Unlock()",
+       "log.Debugf(\"Closing %v because user %s used all the quota\", s, userName)", "s.Close()", "return nil"] ∧
+    statusQuotaExhausted = Mieru.Gen.statusQuotaExhausted.toNat := by decide
+
+/-- `Session.checkQuota`: the early-outs in the order of `Quota.checkQuota`, the clamp of the lookback
+    period and the comparison `totalBytes/1048576 > int64(quota.Megabytes())`; the model's `maxDays` is
+    `math.MaxInt64 / (24 * time.Hour)`, and with the clamp the window is never inverted and the
+    multiplication stays inside int64 (the repaired panic). -/
+theorem quota_check_regenerated :
+    Mieru.Gen.FactsC19.checkQuotaConds =
+      ["policy == nil", "policy.Name() != userName", "len(policy.Quotas()) == 0", "metricGroup == nil", "!found", "!found",
+       "days < 0", "maxDays := int64(math.MaxInt64 / (24 * time.Hour)); days > maxDays",
+       "totalBytes/1048576 > int64(quota.Megabytes())"] ∧
+    Mieru.Gen.FactsC19.checkQuotaLoop =
+      ["now := time.Now()", "days := int64(quota.Days())", "if days < 0 { days = 0 }",
+       "if maxDays := int64(math.MaxInt64 / (24 * time.Hour)); days > maxDays { days = maxDays }",
+       "then := now.Add(-time.Duration(days) * 24 * time.Hour)",
+       "totalBytes := uploadBytes.(*metrics.Counter).DeltaBetween(then, now)",
+       "totalBytes += downloadBytes.(*metrics.Counter).DeltaBetween(then, now)",
+       "if totalBytes/1048576 > int64(quota.Megabytes()) { return false, nil }"] ∧
+    maxDays = 9223372036854775807 / nsPerDay ∧ bytesPerMB = 1048576 := by decide
+
+/-- … for EVERY configured number of days. -/
+theorem quota_window_well_formed (d now : Int) :
+    0 ≤ clampDays d * nsPerDay ∧ clampDays d * nsPerDay ≤ 9223372036854775807 ∧ now - clampDays d * nsPerDay ≤ now := by
+  unfold clampDays maxDays nsPerDay
+  split
+  · omega
+  · split <;> omega
+
+/-- label names and truncation durations of the regenerated `doRollUp` calls -/
+def passOfFact (f : String × String × String × String) : Option Pass :=
+  let label : String → Option Nat := fun s =>
+    if s = "pb.RollUpLabel_NO_ROLL_UP" then some 0 else if s = "pb.RollUpLabel_ROLL_UP_TO_SECOND" then some 1
+    else if s = "pb.RollUpLabel_ROLL_UP_TO_MINUTE" then some 2 else if s = "pb.RollUpLabel_ROLL_UP_TO_HOUR" then some 3
+    else if s = "pb.RollUpLabel_ROLL_UP_TO_DAY" then some 4 else none
+  let dur : String → Option Int := fun s =>
+    if s = "rollUpToSecond" then some Mieru.Gen.rollUpToSecondNs else if s = "rollUpSecondToMinute" then some Mieru.Gen.rollUpSecondToMinuteNs
+    else if s = "rollUpMinuteToHour" then some Mieru.Gen.rollUpMinuteToHourNs else if s = "rollUpHourToDay" then some Mieru.Gen.rollUpHourToDayNs
+    else none
+  let trunc : String → Option Int := fun s =>
+    if s = "time.Second" then some 1000 else if s = "time.Minute" then some 60000 else if s = "time.Hour" then some 3600000
+    else if s = "24 * time.Hour" then some 86400000 else none
+  match label f.1, label f.2.1, dur f.2.2.1, trunc f.2.2.2 with
+  | some a, some b, some c, some d => some ⟨a, b, c, d⟩
+  | _, _, _, _ => none
+
+/-- The model's eight passes ARE the `doRollUp` calls of `Counter.rollUp`, in the code's order, with
+    the compiled repository's thresholds; the guard is `op % rollUpInterval`; `doRollUp` keeps an entry
+    iff its label differs or `time.Since(t) <= rollUpDuration` and merges into `last` iff the truncated
+    times are equal. -/
+theorem rollup_passes_regenerated :
+    Mieru.Gen.FactsC19.rollUpPasses.map passOfFact = passes.map some ∧
+    Mieru.Gen.FactsC19.rollUpGuard = "c.op%rollUpInterval != 0" ∧
+    Mieru.Gen.FactsC19.doRollUpConds =
+      ["h.GetRollUp() != fromLabel", "last != nil", "time.Since(t) <= rollUpDuration", "last != nil", "last == nil",
+       "last.GetTimeUnixMilli() == t.UnixMilli()", "last != nil"] ∧
+    Mieru.Gen.FactsC19.doRollUpTimeCalls = ["time.Since(t)", "t.Truncate(truncateDuration)"] := by decide
+
+/-- `DeltaBetween` searches for the first entry AFTER `t1` and the first AFTER `t2` and sums the entries
+    in between — the `(t1, t2]` window of `afterIdx` / `window`; it panics only for `t2 < t1` and for
+    plain counters. -/
+theorem window_search_regenerated :
+    Mieru.Gen.FactsC19.deltaBetweenPredicates =
+      ["time.UnixMilli(c.history[i].GetTimeUnixMilli()).After(t1)", "time.UnixMilli(c.history[i].GetTimeUnixMilli()).After(t2)"] ∧
+    Mieru.Gen.FactsC19.deltaBetweenLoops = ["i := t1Idx; i < t2Idx; i++ { sum += c.history[i].GetDelta() }"] ∧
+    Mieru.Gen.FactsC19.deltaBetweenPanics = ["t2.Before(t1)", "!c.timeSeries"] := by decide
 
 /-- The constants of the model are the constants of the compiled repository. -/
 theorem counter_constants :
